@@ -21,6 +21,7 @@
 #ifndef MAPK
 #define MAPK 1
 #endif
+// VIAQUEUE: the dispatcher is an EventQueue and every dispatch goes through enqueue + process
 
 static Trace g_tr;
 
@@ -54,6 +55,12 @@ struct Ev { uint32_t type; uint32_t extra; };
 template <typename K, typename V> using StdMap = std::map<K, V>;
 template <typename K, typename V> using HashMap = std::unordered_map<K, V>;
 
+#ifdef VIAQUEUE
+#define DTYPE eventpp::EventQueue
+#else
+#define DTYPE eventpp::EventDispatcher
+#endif
+
 struct PolBase {
 	using Threading = VMutexOnlyThreading;
 #if MAPK == 1
@@ -64,23 +71,28 @@ struct PolBase {
 };
 
 #if CFG == 0
-using Key = int; struct Pol : PolBase {}; using D = eventpp::EventDispatcher<Key, void(int, Val), Pol>;
+using Key = int; struct Pol : PolBase {}; using D = DTYPE<Key, void(int, Val), Pol>;
 #elif CFG == 1
-using Key = int; struct Pol : PolBase { using ArgumentPassingMode = eventpp::ArgumentPassingExcludeEvent; }; using D = eventpp::EventDispatcher<Key, void(Val), Pol>;
+using Key = int; struct Pol : PolBase { using ArgumentPassingMode = eventpp::ArgumentPassingExcludeEvent; }; using D = DTYPE<Key, void(Val), Pol>;
 #elif CFG == 2
-using Key = MoveKey; struct Pol : PolBase {}; using D = eventpp::EventDispatcher<Key, void(MoveKey, uint32_t), Pol>;
+using Key = MoveKey; struct Pol : PolBase {}; using D = DTYPE<Key, void(MoveKey, uint32_t), Pol>;
 #elif CFG == 3
-using Key = uint32_t; struct Pol : PolBase { static uint32_t getEvent(const Ev & e, const Val &) { return e.type; } }; using D = eventpp::EventDispatcher<Key, void(const Ev &, Val), Pol>;
+using Key = uint32_t; struct Pol : PolBase { static uint32_t getEvent(const Ev & e, const Val &) { return e.type; } }; using D = DTYPE<Key, void(const Ev &, Val), Pol>;
 #elif CFG == 4
-using Key = uint32_t; struct Pol : PolBase { static uint32_t getEvent(Ev e, Val v) { (void)v; return e.type; } }; using D = eventpp::EventDispatcher<Key, void(Ev, Val), Pol>;
+using Key = uint32_t; struct Pol : PolBase { static uint32_t getEvent(Ev e, Val v) { (void)v; return e.type; } }; using D = DTYPE<Key, void(Ev, Val), Pol>;
 #elif CFG == 7
-using Key = uint32_t; struct Pol : PolBase { using ArgumentPassingMode = eventpp::ArgumentPassingExcludeEvent; static uint32_t getEvent(uint32_t code, const Val &) { return code >> 8; } }; using D = eventpp::EventDispatcher<Key, void(Val), Pol>;
+using Key = uint32_t; struct Pol : PolBase { using ArgumentPassingMode = eventpp::ArgumentPassingExcludeEvent; static uint32_t getEvent(uint32_t code, const Val &) { return code >> 8; } }; using D = DTYPE<Key, void(Val), Pol>;
 #elif CFG == 5
-using Key = Color; struct Pol : PolBase { using ArgumentPassingMode = eventpp::ArgumentPassingIncludeEvent; }; using D = eventpp::EventDispatcher<Key, void(Color, Val), Pol>;
+using Key = Color; struct Pol : PolBase { using ArgumentPassingMode = eventpp::ArgumentPassingIncludeEvent; }; using D = DTYPE<Key, void(Color, Val), Pol>;
 #else
-using Key = std::string; struct Pol : PolBase {}; using D = eventpp::EventDispatcher<Key, void(std::string, uint32_t), Pol>;
+using Key = std::string; struct Pol : PolBase {}; using D = DTYPE<Key, void(std::string, uint32_t), Pol>;
 #endif
 
+#ifdef VIAQUEUE
+#define DISPATCH_FN enqueue
+#else
+#define DISPATCH_FN dispatch
+#endif
 static uint32_t g_expect_key, g_expect_val; static bool g_ok;
 static uint32_t keyval(uint32_t raw) {
 #if CFG == 7
@@ -156,15 +168,15 @@ extern "C" void harness()
 	if(form == 0) {                                  // arguments from temporaries
 		vf_cover(COV_TEMPORARY);
 #if CFG == 0 || CFG == 5
-		d->dispatch(mk(kd), Val(val));
+		d->DISPATCH_FN(mk(kd), Val(val));
 #elif CFG == 1
-		d->dispatch(mk(kd), Val(val));
+		d->DISPATCH_FN(mk(kd), Val(val));
 #elif CFG == 7
-		d->dispatch((kd << 8) | 0x5au, Val(val));
+		d->DISPATCH_FN((kd << 8) | 0x5au, Val(val));
 #elif CFG == 2 || CFG == 6
-		d->dispatch(mk(kd), val);
+		d->DISPATCH_FN(mk(kd), val);
 #else
-		d->dispatch(Ev{kd, 7u}, Val(val));
+		d->DISPATCH_FN(Ev{kd, 7u}, Val(val));
 #endif
 	}
 	else {                                           // arguments from lvalues, which must stay intact
@@ -172,23 +184,26 @@ extern "C" void harness()
 		Key key = mk(kd); Val v(val);
 #if CFG == 7
 		uint32_t code = (kd << 8) | 0xa5u;
-		d->dispatch(code, v);
+		d->DISPATCH_FN(code, v);
 		vf_assert(v.x == val && v.state == 1, 200);
 #elif CFG == 0 || CFG == 5 || CFG == 1
-		d->dispatch(key, v);
+		d->DISPATCH_FN(key, v);
 		vf_assert(v.x == val && v.state == 1, 200);
 #elif CFG == 2
-		d->dispatch(key, val);
+		d->DISPATCH_FN(key, val);
 		vf_assert(key.k == kd && key.state == 1, 201);
 #elif CFG == 6
-		d->dispatch(key, val);
+		d->DISPATCH_FN(key, val);
 		vf_assert(keyid(key) == kd, 201);
 #else
 		Ev ev{kd, 7u};
-		d->dispatch(ev, v);
+		d->DISPATCH_FN(ev, v);
 		vf_assert(v.x == val && v.state == 1 && ev.type == kd, 202);
 #endif
 	}
+#ifdef VIAQUEUE
+	{ bool r = d->process(); vf_assert(r, 209); }
+#endif
 	// exactly the listeners registered for the dispatched event, in order, each once, with the caller's values
 	int k = 0;
 	if(k1 == kd) { vf_assert(k + 1 < g_tr.n && g_tr.e[k].id == 10 && g_tr.e[k + 1].id == 11, 203); k += 2; vf_cover(COV_HIT_FIRST); }
